@@ -44,10 +44,10 @@ func unsupProgs(seed int64, n int, all bool) []*synth.Program {
 
 func checkC18(cfg *core.Config) int {
 	rep := core.NewReport(cfg)
-	progs := typeProgs(cfg.Seed, cfg.Pick(32, 400))
+	progs := typeProgs(cfg.Seed, cfg.Pick(32, 2000))
 	progs = append(progs, unsupProgs(cfg.Seed, 60, cfg.Thorough())...)
-	progs = append(progs, sqlProgs(cfg.Seed, cfg.Pick(16, 200))...)
-	progs = append(progs, routeProgs(cfg.Seed, cfg.Pick(16, 200))...)
+	progs = append(progs, sqlProgs(cfg.Seed, cfg.Pick(16, 800))...)
+	progs = append(progs, routeProgs(cfg.Seed, cfg.Pick(16, 800))...)
 	progs = append(progs, pinnedPrograms("C18")...)
 	pl := NewPipeline(cfg, rep, progs, true)
 	defer pl.Close()
